@@ -265,27 +265,28 @@ def parse_coq_nat_list(out, name):
     return [int(x.replace("%nat", "").replace("%Z", "").replace("%N", "").strip().strip("()")) for x in body.split(";")]
 
 
-def eval_failing(module_imports, cases_terms, checker, name, shard=150, timeout=900, preamble=""):
-    """cases_terms: list of Coq terms (one per case), checker: Coq function : case -> bool
-    (true = model agrees). Returns (list of failing indices, error-text-or-None).
-    Sharded and run in parallel inside coqc with vm_compute."""
+def eval_failing_multi(module_imports, cases_terms, checkers, name, shard=None, timeout=900, preamble=""):
+    """cases_terms: list of Coq terms (one per case); checkers: {label: Coq function case -> bool}
+    (true = model agrees). Returns ({label: sorted failing indices}, error-text-or-None).
+    Sharded over all cores; each shard is one coqc run evaluating every checker with vm_compute."""
+    if shard is None:
+        shard = max(6, min(150, -(-len(cases_terms) // NPROC)))
     shards = [cases_terms[i:i + shard] for i in range(0, len(cases_terms), shard)]
-    procs = []
     d = os.path.join(BUILD, "cases")
     os.makedirs(d, exist_ok=True)
-    results = [None] * len(shards)
-    # run at most NPROC at a time
     idx = 0
     running = []
-    failing = []
+    failing = {c: [] for c in checkers}
     err = None
+    labels = list(checkers)
 
     def start(k):
         src = module_imports + "\n" + preamble + "\n"
         src += "Definition cases := " + coq_list(shards[k]) + ".\n"
         src += ("Fixpoint failing_idx {A} (chk : A -> bool) (n : nat) (l : list A) : list nat :=\n"
                 "  match l with [] => [] | c :: t => if chk c then failing_idx chk (S n) t else n :: failing_idx chk (S n) t end.\n")
-        src += "Definition bad := Eval vm_compute in failing_idx (%s) O cases.\nPrint bad.\n" % checker
+        for j, lab in enumerate(labels):
+            src += "Definition bad%d := Eval vm_compute in failing_idx (%s) O cases.\nPrint bad%d.\n" % (j, checkers[lab], j)
         nm = re.sub(r"[^A-Za-z0-9_]", "_", "%s_%d_s%d" % (name, os.getpid(), k))
         p = os.path.join(d, nm + ".v")
         with open(p, "w") as f:
@@ -317,12 +318,18 @@ def eval_failing(module_imports, cases_terms, checker, name, shard=150, timeout=
         if pr.returncode != 0:
             err = "coqc failed on shard %d (%s.v kept):\n%s" % (k, nm, out[-3000:])
             continue
-        lst = parse_coq_nat_list(out, "bad")
-        if lst is None:
-            err = "cannot parse coqc output: " + out[-500:]
-            continue
-        failing += [k * shard + i for i in lst]
-    return sorted(failing), err
+        for j, lab in enumerate(labels):
+            lst = parse_coq_nat_list(out, "bad%d" % j)
+            if lst is None:
+                err = "cannot parse coqc output: " + out[-500:]
+                continue
+            failing[lab] += [k * shard + i for i in lst]
+    return {c: sorted(v) for c, v in failing.items()}, err
+
+
+def eval_failing(module_imports, cases_terms, checker, name, shard=None, timeout=900, preamble=""):
+    r, err = eval_failing_multi(module_imports, cases_terms, {"x": checker}, name, shard, timeout, preamble)
+    return r["x"], err
 
 
 def eval_print(module_imports, term, name, timeout=300, preamble=""):
@@ -567,12 +574,10 @@ def seq_differential(ctx, spec, exe, proofs_ok, tag=None, scale=1.0):
     terms = [spec.coq_case(c, obs_by_id[c["id"]]) for c in cases]
     corr_fail = {}
     t = time.time()
-    for cname, checker in spec.checkers.items():
-        failing, cerr = eval_failing(spec.imports, terms, checker, "%s_%s_%s" % (ctx.pid, tag, cname), preamble=spec.preamble)
-        if cerr:
-            ctx.violation("%s:model-eval-error" % tag, "Coq evaluation of the model failed: " + cerr[:1500],
-                          {"component": spec.component, "error": cerr}, failing_input=False)
-        corr_fail[cname] = failing
+    corr_fail, cerr = eval_failing_multi(spec.imports, terms, spec.checkers, "%s_%s" % (ctx.pid, tag), preamble=spec.preamble)
+    if cerr:
+        ctx.violation("%s:model-eval-error" % tag, "Coq evaluation of the model failed: " + cerr[:1500],
+                      {"component": spec.component, "error": cerr}, failing_input=False)
     part["coq_eval_s"] = round(time.time() - t, 1)
 
     def rerun(ops_case):
@@ -608,7 +613,7 @@ def seq_differential(ctx, spec, exe, proofs_ok, tag=None, scale=1.0):
     # 2. correspondence broken without an oracle failure on that case
     for cname, failing in corr_fail.items():
         only = [i for i in failing if i not in oracle_fail]
-        if not only:
+        if not only or cname in getattr(spec, "informational", ()):
             continue
         cid = only[0]
         case = cases[cid]
